@@ -193,3 +193,17 @@ func H_C08_srcLiteral(n int) {
 		verifAssert(ast != nil && len(ast.Callables.List) == 1, "one stage declared")
 	}
 }
+
+// H_C08_escape: a string literal that starts with a backslash escape followed
+// by n arbitrary bytes (every escape form up to n bytes, complete or not):
+// whatever the lexer accepts as a string token, unquoteBytes accepts.
+func H_C08_escape(n int) {
+	body := verifBytes("e", n)
+	lit := append(append([]byte{'"', '\\'}, body...), '"')
+	tok, val := nextToken(lit)
+	if tok == LITSTRING {
+		verifCover("escaped string token")
+		out := unquoteBytes(val)
+		verifAssert(len(out) <= len(val), "unquoted escape is not longer than its literal")
+	}
+}
